@@ -1,8 +1,188 @@
-//! stub — to be written
-use crate::core::{Acc, Ctx};
-use serde_json::Value;
-pub const RULE: &str = "";
-pub const ASSUMPTIONS: &[&str] = &[];
-pub fn bounds(_quick: bool) -> Value { Value::Null }
-pub fn run(_ctx: &Ctx, _acc: &mut Acc) {}
-pub fn replay(_v: &Value) -> Option<(bool, String)> { None }
+//! C17 — parsed frame structures re-serialise identically and agree with the decoder.
+//! Shape G over frames from (1) the crate's own output over the C01 space, (2) the valid fgen space of C03,
+//! (3) the malformed fgen space of C04(a). Each frame is isolated into a one-frame stream with unknown total
+//! so that no stream-level rule interferes.
+use crate::codec::{decode, encode, err_class, ReaderKind};
+use crate::core::{for_each_deviation, guarded, hex, unhex, Acc, Ctx};
+use crate::encspace::{enumerate, EncCase};
+use crate::gspace::{bad_knobs, make_spec, menus};
+use flac_codec::stream::{ChannelAssignment, Frame, SubframeWidth};
+use serde_json::{json, Value};
+use vph::fgen;
+use vph::refdec;
+
+pub const RULE: &str = "every frame of (1) the crate's encoder output over C01 sets (b),(d),(g) (thorough: (a),(b),(d),(e),(g),(h),(i)), (2) every valid fgen stream within 2 (thorough 3) deviations, (3) every fgen stream with one malformation (valid checksums) on the plain stream and its single deviations, is cut out and wrapped into a one-frame stream whose STREAMINFO leaves the total unknown; Frame::read and the streaming decoder must both accept or both reject it; for accepted frames every subframe expands to exactly block-size samples, inverse decorrelation of those samples equals the streaming decoder's output, and Frame::write reproduces the original bytes whenever the independent decoder reports a minimal-length coded number and zero padding bits";
+pub const ASSUMPTIONS: &[&str] = &["frames are judged individually under the original STREAMINFO with total/MD5 cleared; stream-level rules (numbering, totals, short-block placement) are C05's business"];
+pub fn bounds(quick: bool) -> Value {
+    json!({"crate_output_sets": if quick { "b,d,g" } else { "a,b,d,e,g,h,i" }, "valid_deviations": if quick { 2 } else { 3 }, "malformed": "1 malformation × ≤1 valid deviation"})
+}
+
+/// fLaC + STREAMINFO (copied from `file`, total and MD5 cleared, marked last) + one frame
+fn one_frame_stream(file: &[u8], frame: &[u8]) -> Vec<u8> {
+    let mut h = file[..42].to_vec();
+    h[4] = 0x80; // last block, type 0
+    // STREAMINFO body starts at 8; total samples = low 4 bits of body[13] + body[14..18]; md5 = body[18..34]
+    h[8 + 13] &= 0xF0;
+    for b in &mut h[8 + 14..8 + 34] {
+        *b = 0;
+    }
+    h.extend_from_slice(frame);
+    h
+}
+
+fn structural_samples(f: &Frame) -> Result<Vec<i32>, String> {
+    let n = u16::from(f.header.block_size) as usize;
+    let subs: Vec<Vec<i64>> = f
+        .subframes
+        .iter()
+        .map(|s| match s {
+            SubframeWidth::Common(s) => s.decode().map(i64::from).collect(),
+            SubframeWidth::Wide(s) => s.decode().collect(),
+        })
+        .collect();
+    for (i, s) in subs.iter().enumerate() {
+        if s.len() != n {
+            return Err(format!("subframe {i} expands to {} samples, block size is {n}", s.len()));
+        }
+    }
+    let chans: Vec<Vec<i64>> = match f.header.channel_assignment {
+        ChannelAssignment::Independent(_) => subs,
+        ChannelAssignment::LeftSide => vec![subs[0].clone(), subs[0].iter().zip(&subs[1]).map(|(l, s)| l.wrapping_sub(*s)).collect()],
+        ChannelAssignment::SideRight => vec![subs[0].iter().zip(&subs[1]).map(|(s, r)| s.wrapping_add(*r)).collect(), subs[1].clone()],
+        ChannelAssignment::MidSide => {
+            let (mut l, mut r) = (Vec::new(), Vec::new());
+            for (m, s) in subs[0].iter().zip(&subs[1]) {
+                let mm = m.wrapping_mul(2).wrapping_add(s & 1);
+                l.push(mm.wrapping_add(*s) >> 1);
+                r.push(mm.wrapping_sub(*s) >> 1);
+            }
+            vec![l, r]
+        }
+    };
+    Ok((0..n).flat_map(|i| chans.iter().map(move |c| c[i] as i32)).collect())
+}
+
+/// None = property holds on this frame; Some((clause, detail)).
+pub fn judge(file: &[u8], frame: &[u8]) -> (String, Option<(String, String)>) {
+    let one = one_frame_stream(file, frame);
+    let info = match guarded(|| flac_codec::metadata::read_info(&one[..])) {
+        Ok(Ok(i)) => i,
+        _ => return ("no-streaminfo".into(), None),
+    };
+    let a = match guarded(|| Frame::read(&mut &frame[..], &info)) {
+        Ok(r) => r,
+        Err(p) => return ("panic".into(), Some((format!("Frame::read|panic@{}", crate::core::panic_loc(&p)), p))),
+    };
+    let b = decode(ReaderKind::SampleFill, &one);
+    if let Err((e, _)) = &b {
+        if e.starts_with("panic:") {
+            return ("panic".into(), Some((format!("decoder|{}", err_class(e)), e.clone())));
+        }
+    }
+    match (&a, &b) {
+        (Ok(_), Err((e, _))) => return ("disagree".into(), Some((format!("parser-accepts-decoder-rejects|{}", err_class(e)), format!("Frame::read accepts a frame the streaming decoder rejects with {e}")))),
+        (Err(e), Ok(_)) => return ("disagree".into(), Some((format!("decoder-accepts-parser-rejects|{e:?}").split('(').next().unwrap().to_string(), format!("the streaming decoder accepts a frame Frame::read rejects with {e:?}")))),
+        (Err(_), Err(_)) => return ("both-reject".into(), None),
+        _ => {}
+    }
+    let (fr, dec) = (a.unwrap(), b.unwrap());
+    let ss = match guarded(|| structural_samples(&fr)) {
+        Ok(Ok(s)) => s,
+        Ok(Err(m)) => return ("expand".into(), Some(("subframe-length".into(), m))),
+        Err(p) => return ("panic".into(), Some((format!("Subframe::decode|panic@{}", crate::core::panic_loc(&p)), p))),
+    };
+    if ss != dec.pcm {
+        let at = ss.iter().zip(&dec.pcm).position(|(x, y)| x != y);
+        return ("samples-differ".into(), Some(("structural-samples-differ-from-decoder".into(), format!("structural expansion differs from the streaming decoder at {at:?} ({} vs {} samples)", ss.len(), dec.pcm.len()))));
+    }
+    // re-serialisation
+    let mut out = Vec::new();
+    match guarded(|| fr.write(&info, &mut out)) {
+        Ok(Ok(())) => {}
+        Ok(Err(e)) => return ("write-fails".into(), Some((format!("write-fails|{e:?}").split('(').next().unwrap().to_string(), format!("Frame::write fails on a frame Frame::read accepted: {e:?}")))),
+        Err(p) => return ("panic".into(), Some((format!("Frame::write|panic@{}", crate::core::panic_loc(&p)), p))),
+    }
+    let rinfo = refdec::StreamInfo { min_block: info.minimum_block_size, max_block: info.maximum_block_size, min_frame: 0, max_frame: 0, rate: info.sample_rate, channels: info.channels.get(), bps: u32::from(info.bits_per_sample) as u8, total: 0, md5: [0; 16] };
+    match guarded(|| refdec::decode_frame(frame, 0, Some(&rinfo))) {
+        Ok(Ok(fi)) if fi.coded_number_minimal && fi.padding_zero && fi.len == frame.len() => {
+            if out != frame {
+                let at = out.iter().zip(frame).position(|(x, y)| x != y);
+                return ("reserialise-differs".into(), Some(("reserialised-bytes-differ".into(), format!("Frame::write gives {} bytes, original {} (first difference at {at:?})", out.len(), frame.len()))));
+            }
+            ("ok-identical".into(), None)
+        }
+        Ok(Ok(_)) => ("ok-nonminimal".into(), None),
+        _ => ("ok-reference-rejects".into(), None),
+    }
+}
+
+fn run_stream(acc: &mut Acc, class: &str, bytes: &[u8], frames: &[(usize, usize)], origin: Value) {
+    for (i, (o, l)) in frames.iter().enumerate() {
+        if o + l > bytes.len() || bytes.len() < 42 {
+            continue;
+        }
+        acc.states += 1;
+        acc.executions += 1;
+        acc.transitions += 4;
+        let (out, v) = judge(bytes, &bytes[*o..o + l]);
+        acc.outcome(format!("{class}:{out}"));
+        if let Some((clause, detail)) = v {
+            acc.violation(format!("C17|{clause}"), format!("frame {i}: {detail} [{origin}]"), json!({"kind":"frame","file":hex(&bytes[..42]),"frame":hex(&bytes[*o..o + l]),"origin":origin}));
+        }
+    }
+}
+
+pub fn run(ctx: &Ctx, acc: &mut Acc) {
+    // (1) crate output
+    enumerate(ctx, if ctx.quick { "bdg" } else { "abdeghi" }, &mut |c: &EncCase| {
+        if let Ok(bytes) = encode(c.w, &c.opt, &c.sig, c.pcm) {
+            if let Ok(Ok(st)) = guarded(|| refdec::decode(&bytes)) {
+                let frames: Vec<(usize, usize)> = st.frames.iter().map(|f| (f.offset, f.len)).collect();
+                run_stream(acc, "crate", &bytes, &frames, json!({"set":c.set,"bps":c.sig.bps,"ch":c.sig.ch,"opt":c.opt.to_json(),"pcm_len":c.pcm.len()}));
+            }
+        }
+    });
+    // (2) valid grammar space
+    let m = menus();
+    for_each_deviation(&m, if ctx.quick { 2 } else { 3 }, |k| {
+        if !ctx.mine() {
+            return;
+        }
+        if let Ok(spec) = make_spec(k) {
+            if let Ok(b) = fgen::build(&spec) {
+                run_stream(acc, "valid", &b.bytes, &b.frame_offsets, json!({"vector":k}));
+            }
+        }
+    });
+    // (3) malformed grammar space
+    let knobs = bad_knobs();
+    for_each_deviation(&m, 1, |k| {
+        let base = match make_spec(k) {
+            Ok(s) => s,
+            Err(_) => return,
+        };
+        for (ki, knob) in knobs.iter().enumerate() {
+            for fi in [0, base.frames.len() - 1] {
+                if !ctx.mine() {
+                    continue;
+                }
+                let mut spec = base.clone();
+                (knob.apply)(&mut spec, fi);
+                if let Ok(b) = fgen::build(&spec) {
+                    run_stream(acc, "malformed", &b.bytes, &b.frame_offsets, json!({"vector":k,"malformation":knob.name,"knob":ki,"frame":fi}));
+                }
+            }
+        }
+    });
+    acc.sample(json!({"kind":"frame","origin":{"vector":[0,0,0,0,0,0,0,0,0,0,0,0,0,0,0,0,9,0,0,1,2,3,0]}}));
+}
+
+pub fn replay(v: &Value) -> Option<(bool, String)> {
+    if v["kind"] != "frame" {
+        return None;
+    }
+    let file = unhex(v["file"].as_str()?);
+    let frame = unhex(v["frame"].as_str()?);
+    let (out, viol) = judge(&file, &frame);
+    Some((viol.is_some(), format!("{out} {viol:?}")))
+}
